@@ -148,6 +148,17 @@ impl St {
                                 Step::Dbg => {
                                     let rem: Vec<u32> = before[lo..hi].iter().map(|m| m.0).collect();
                                     debug_touches_only("the drain", &rem, || d.debug_string())?;
+                                    // a sink that gives up (Err) or panics part of the way: formatting takes `&self`, nothing may change
+                                    let full = untracked(|| d.debug_string()).len();
+                                    for (budget, panic) in [(0, false), (full / 2, false), (full.saturating_sub(1), false), (full / 2, true), (0, true)] {
+                                        match untracked(|| d.debug_failing(budget, panic)) {
+                                            Some(true) | None => {}
+                                            Some(false) => return Err(format!("formatting the drain into a sink that accepts {budget} of {full} bytes reported success")),
+                                        }
+                                        if d.len() != hi - lo {
+                                            return Err(format!("after an interrupted {{:?}} the drain reports len {} (expected {})", d.len(), hi - lo));
+                                        }
+                                    }
                                 }
                                 Step::Nth(k) | Step::NthBack(k) => {
                                     let k = *k as usize;
@@ -668,6 +679,34 @@ impl St {
                         let zm: Vec<(usize, usize)> = b.iter_mut().zip(0..obs.len()).map(|(t, i)| (obs.iter().position(|o| o.addr == addr(t)).unwrap_or(usize::MAX), i)).collect();
                         chk_pairs("iter_mut().zip(0..len)", zm, straight)?;
                     }
+                    // consumers that are generic over the accumulator: an order-sensitive `Sum` / `Product`, `partition`, `reduce`
+                    {
+                        let want: Vec<usize> = obs.iter().map(|o| o.addr).collect();
+                        let rwant: Vec<usize> = want.iter().rev().copied().collect();
+                        let full = || crate::deq::RangeArg { start: Bound::Unbounded, end: Bound::Unbounded, native: true };
+                        for (what, got, want) in [
+                            ("iter().sum()", b.iter().sum::<Order>().0, &want),
+                            ("iter().product()", b.iter().product::<Order>().0, &want),
+                            ("iter().rev().sum()", b.iter().rev().sum::<Order>().0, &rwant),
+                            ("iter().rev().product()", b.iter().rev().product::<Order>().0, &rwant),
+                            ("range(..).sum()", b.range(full()).sum::<Order>().0, &want),
+                            ("range(..).product()", b.range(full()).product::<Order>().0, &want),
+                            ("iter_mut().sum()", b.iter_mut().map(|t| &*t).sum::<Order>().0, &want),
+                        ] {
+                            if &got != want {
+                                return Err(format!("{what} hands the accumulator the elements at {:x?}, expected {:x?} (positions 0..len in order)", got, want));
+                            }
+                        }
+                        let (ev, od): (Vec<&Tracked>, Vec<&Tracked>) = b.iter().partition(|t| obs.iter().position(|o| o.addr == addr(t)).unwrap_or(0) % 2 == 0);
+                        let evw: Vec<usize> = want.iter().step_by(2).copied().collect();
+                        let odw: Vec<usize> = want.iter().skip(1).step_by(2).copied().collect();
+                        if ev.iter().map(|t| addr(t)).collect::<Vec<_>>() != evw || od.iter().map(|t| addr(t)).collect::<Vec<_>>() != odw {
+                            return Err("iter().partition(even position) does not split the sequence in order".to_string());
+                        }
+                        check_ref("iter().reduce(first)", b.iter().reduce(|a, _| a), obs.first())?;
+                        check_ref("iter().reduce(last)", b.iter().reduce(|_, x| x), obs.last())?;
+                        check_ref("iter().rev().reduce(last)", b.iter().rev().reduce(|_, x| x), obs.first())?;
+                    }
                     // value-dependent consumers (ties between equal elements are decided by position)
                     let want_max = (0..obs.len()).max_by_key(|k| obs[*k].val).map(|k| &obs[k]);
                     let want_min = (0..obs.len()).min_by_key(|k| obs[*k].val).map(|k| &obs[k]);
@@ -1073,5 +1112,20 @@ impl St {
             }
             _ => unreachable!("op handled elsewhere"),
         }
+    }
+}
+
+/// An accumulator for `Iterator::sum` / `product` that records the order in which it is handed the elements.
+struct Order(Vec<usize>);
+
+impl<'a> std::iter::Sum<&'a Tracked> for Order {
+    fn sum<I: Iterator<Item = &'a Tracked>>(it: I) -> Self {
+        Order(it.map(|t| t as *const Tracked as usize).collect())
+    }
+}
+
+impl<'a> std::iter::Product<&'a Tracked> for Order {
+    fn product<I: Iterator<Item = &'a Tracked>>(it: I) -> Self {
+        Order(it.map(|t| t as *const Tracked as usize).collect())
     }
 }
